@@ -1,7 +1,7 @@
 (* C10 — All input back-ends behave identically.  (theorems: Proofs/InputRefine.v) *)
 From Coq Require Import List NArith Bool.
 Import ListNotations.
-Require Import Parser SBase SFetch Pipe SBuf InputRefine ScanWP ScanSafeTop ScanRelTop ScanRelAll.
+Require Import Parser SBase SFetch Pipe SBuf InputRefine ScanWP ScanSafeTop ScanRelTop ScanRelAll ScanFuelBufAll.
 Open Scope nat_scope.
 
 (* Per-operation refinement between the buffered input of any capacity and the string input: related states
@@ -60,3 +60,27 @@ Theorem C10_pipeline_backends_agree_total : forall (orig : list N) cap, (8 <= ca
   run_str orig = run_buf cap orig \/ snd (run_buf cap orig) = PFuel.
 Proof. exact pipeline_backends_agree_total. Qed.
 Print Assumptions C10_pipeline_backends_agree_total.
+
+(* ... and with bounded work proved for the BUFFERED instance too (C01_pipeline_terminates_linear_buffered; fuel transfer
+   through the strengthened relational calculus of Proofs/ScanFuelBuf.v) NO exception is left: for every input and every
+   capacity >= 8 the buffered pipeline (the back-end behind Parser::new_from_iter and Yaml::load_from_str at capacity 16)
+   returns exactly what the string pipeline returns - same events, same spans, same end. *)
+Theorem C10_pipeline_backends_equal : forall cap (x : list N), (8 <= cap)%nat -> run_buf cap x = run_str x.
+Proof. exact pipeline_backends_equal. Qed.
+Print Assumptions C10_pipeline_backends_equal.
+
+(* the scanners alone, with the fuels of the pipelines: the same token list and the same end *)
+Theorem C10_scanner_backends_equal_total : forall cap (orig : list chr), (8 <= cap)%nat ->
+  let F := (2 * length orig + 10)%nat in
+  scan_all (buf_ops cap) F (4 * F + 20) (init_sc {| b_buf := []; b_rest := orig |}) []
+  = scan_all str_ops F (4 * F + 20) (init_sc {| si_chars := orig; si_look := 0 |}) [].
+Proof. exact scanner_backends_equal. Qed.
+Print Assumptions C10_scanner_backends_equal_total.
+
+(* non-vacuity: capacity 8 on a plain scalar much longer than the chunk (refresh every 7 characters) and a block scalar
+   indented beyond capacity - 2 (the wide path of skip_block_scalar_indent) *)
+Example C10_equal_example :
+  let x := [97;98;99;100;101;102;103;104;105;106;107;108;109;110;111;112;113;114;115;116;117;118;119;120;121;122;58;32;124;10;
+            32;32;32;32;32;32;32;32;32;32;120;10;32;32;32;32;32;32;32;32;32;32;121;10]%N in
+  run_buf 8 x = run_str x /\ snd (run_buf 8 x) = PDone.
+Proof. vm_compute. split; reflexivity. Qed.
